@@ -863,7 +863,8 @@ def r7_single_parser(rep, facts):
 
 
 def rules(rep, facts):
-    if 'toml_edit' not in facts.crates or not facts.has_body(P + 'parse_document'):
+    feats = set(facts.crates.get('toml_edit', {}).get('features', []))
+    if 'toml_edit' not in facts.crates or 'parse' not in feats:
         rep.notes.append(f'configuration {facts.config}: parser not compiled, rules skipped.')
         return
     g = pm.model(facts)
